@@ -1414,12 +1414,47 @@ Qed.
 Lemma reset6_wf s : q_crash s = false -> modst_wf (reset6 s).
 Proof. intro C. repeat split; cbn; try assumption; try reflexivity. intros g o []. Qed.
 
-(* any session (configurations and resets) from a well-formed state stays well-formed: no crash *)
-Lemma run_session6_wf cfgs : forall s, modst_wf s -> modst_wf (run_session6 IvRollback true cfgs s).
+Lemma delete_bias6_same n s :
+  q_cvs (delete_bias6 n s) = q_cvs s /\ q_named (delete_bias6 n s) = q_named s /\ q_reg (delete_bias6 n s) = q_reg s /\
+  q_crash (delete_bias6 n s) = q_crash s.
+Proof. unfold delete_bias6. destruct (find _ (q_biases s)); cbn; repeat split. Qed.
+
+Lemma delete_biases_same ns : forall s,
+  let s1 := fold_left (fun st n => delete_bias6 n st) ns s in
+  q_cvs s1 = q_cvs s /\ q_named s1 = q_named s /\ q_reg s1 = q_reg s /\ q_crash s1 = q_crash s.
 Proof.
-  induction cfgs as [|[c|] r IH]; intros s W; simpl; [exact W | |].
-  - apply IH. exact (ex_wf _ _ (parse_config6_extends c s W)).
-  - apply IH. apply reset6_wf. exact (proj1 (proj2 W)).
+  induction ns as [|n r IH]; intro s; simpl; [repeat split|].
+  destruct (IH (delete_bias6 n s)) as (A & B & C & D). destruct (delete_bias6_same n s) as (A' & B' & C' & D').
+  repeat split; congruence.
+Qed.
+
+Lemma delete_bias6_wf n s : modst_wf s -> modst_wf (delete_bias6 n s).
+Proof.
+  intros (W & C & N). destruct (delete_bias6_same n s) as (A & B & R & D).
+  unfold modst_wf. rewrite A, B, R, D. repeat split; assumption.
+Qed.
+
+Lemma delete_cv6_wf c s : modst_wf s -> modst_wf (delete_cv6 c s).
+Proof.
+  intros (W & C & N). unfold delete_cv6.
+  destruct (negb (existsb (String.eqb c) (q_cvs s))); [repeat split; assumption|].
+  set (ns := rev (map (fun b => fst (fst b)) (filter (uses_cv c) (q_biases s)))).
+  destruct (delete_biases_same ns s) as (A & B & R & D). fold ns.
+  unfold modst_wf; cbn. rewrite A, B, R, D. repeat split; try assumption.
+  intros g o H. apply filter_In in H. destruct H as [H Hne]. cbn in Hne.
+  apply filter_In. split; [eapply N; exact H | exact Hne].
+Qed.
+
+(* any session (configurations, resets, deletions of biases and variables) from a well-formed state stays well-formed:
+   no NULL pointer is dereferenced, every named group is owned by a variable that still exists *)
+Lemma run_session6_wf ops : forall s, modst_wf s -> modst_wf (run_session6 IvRollback true ops s).
+Proof.
+  induction ops as [|o r IH]; intros s W; simpl; [exact W|].
+  apply IH. destruct o as [c| |n|n]; cbn.
+  - exact (ex_wf _ _ (parse_config6_extends c s W)).
+  - apply reset6_wf. exact (proj1 (proj2 W)).
+  - apply delete_bias6_wf. exact W.
+  - apply delete_cv6_wf. exact W.
 Qed.
 
 (* what a configuration rejected in parse_global_params (a malformed or missing index file, a module-level keyword
